@@ -15,9 +15,10 @@
      O cps | b ...          OffsetCursor::push_to chain     -> P | char byte
      K pre a b | cps        def_token! after push_to(pre)   -> P | s e
      Y cps | start ...      Markdown traversed_bytes/chars  -> P | tb tc ...
-     Z ilt | cps | code arg start ... | entry ...   Markdown::parse loop + final pop -> P | s e k ...
+     Z ilt | cps | code arg start end ... | entry ...   Markdown::parse loop + final pop -> P | s e k ...
+                            (start, end = the event's byte range; arg = chars().count() of its text)
      Q cps                  ignore condition (generated markers) -> 0 | 1
-     H cps                  git-commit cut                  -> n *)
+     H cps                  git-commit cut (first line starting with '#') -> P | n *)
 let nats s = List.map nat_of_int (ints_of_line s)
 let rec pairs = function a :: b :: t -> (nat_of_int a, nat_of_int b) :: pairs t | _ -> []
 let rec triples = function
@@ -40,10 +41,10 @@ let tag_of = function
   | 0 -> TParagraph | 1 -> TLink | 2 -> THeading | 3 -> TItem | 4 -> TTableCell | 5 -> TEmphasis
   | 6 -> TStrong | 7 -> TStrikethrough | 8 -> TCodeBlock | 9 -> TList | _ -> TOtherTag
 let rec events = function
-  | code :: arg :: start :: t ->
+  | code :: arg :: start :: stop :: t ->
       let ev = match code with
         | 0 -> EStart (tag_of arg) | 1 -> EEndBreaking | 2 -> EEndOther | 3 -> ESoftBreak | 4 -> EHardBreak
-        | 5 -> ECodeLike (nat_of_int arg) | 6 -> EText (nat_of_int arg) | 7 -> EHtml (nat_of_int arg)
+        | 5 -> ECodeLike (nat_of_int arg) | 6 -> EText (nat_of_int arg, nat_of_int stop) | 7 -> EHtml (nat_of_int arg)
         | _ -> EOtherEvent in
       (ev, nat_of_int start) :: events t
   | _ -> []
@@ -87,5 +88,7 @@ let () =
         out_triples (run_md_core (List.map entry entries) (String.trim ilt = "1") (text_of_line t)
                        (events (ints_of_line evs)))
     | 'Q', [t] -> print_endline (if run_ignore_gen (text_of_line t) then "1" else "0")
-    | 'H', [t] -> print_endline (string_of_int (int_of_nat (run_git_cut (text_of_line t))))
+    | 'H', [t] ->
+        (match run_git_cut (text_of_line t) with
+         | None -> print_endline "P" | Some n -> print_endline (string_of_int (int_of_nat n)))
     | _ -> print_endline "?")
